@@ -144,8 +144,7 @@ const c09UnknownColumn = "verif_no_such_column"
 type c09Shape struct {
 	Name  string
 	Lines []string
-	Wait  bool // goes through Peer.WaitCondition: let the background goroutine settle
-	Slow  bool // ... which acts again after its polling interval (200 ms)
+	Wait  bool // goes through Peer.WaitCondition: its goroutine outlives the request (polls every 200 ms)
 }
 
 // c09Shapes lists the request-level shapes probed for every table; key is the table's first column.
@@ -222,9 +221,9 @@ func c09Shapes(table *Table) []c09Shape {
 		c09Shape{Name: "stats_agg_unknown_column", Lines: []string{"Stats: sum " + c09UnknownColumn}},
 		c09Shape{Name: "stats_statsand_0", Lines: []string{"StatsAnd: 0"}},
 		c09Shape{Name: "filter_groups_nested", Lines: []string{col, "Filter: " + key + " !=", "Filter: " + key + " = x", "Or: 2", "Negate:", "Filter: " + key + " ~ .", "And: 2", "Negate:"}},
-		c09Shape{Name: "waitcondition_and_2", Wait: true, Lines: []string{col, "WaitTrigger: all", "WaitCondition: " + key + " !=", "WaitCondition: " + key + " = x", "WaitConditionAnd: 2", "WaitTimeout: 1"}},
-		c09Shape{Name: "waitcondition_or_2_object", Wait: true, Lines: []string{col, "WaitTrigger: all", "WaitObject: " + existing, "WaitCondition: " + key + " !=", "WaitCondition: " + key + " = x", "WaitConditionOr: 2", "WaitTimeout: 1"}},
-		c09Shape{Name: "waitcondition_and_0", Wait: true, Lines: []string{col, "WaitTrigger: all", "WaitConditionAnd: 0", "WaitTimeout: 1"}},
+		c09Shape{Name: "waitcondition_and_2", Wait: true, Lines: []string{col, "WaitTrigger: all", "WaitCondition: " + key + " !=", "WaitCondition: " + key + " = x", "WaitConditionAnd: 2", "WaitTimeout: 100"}},
+		c09Shape{Name: "waitcondition_or_2_object", Wait: true, Lines: []string{col, "WaitTrigger: all", "WaitObject: " + existing, "WaitCondition: " + key + " !=", "WaitCondition: " + key + " = x", "WaitConditionOr: 2", "WaitTimeout: 100"}},
+		c09Shape{Name: "waitcondition_and_0", Wait: true, Lines: []string{col, "WaitTrigger: all", "WaitConditionAnd: 0", "WaitTimeout: 100"}},
 	)
 	// arguments that are no numbers / no lists where the column wants one
 	for _, arg := range [][2]string{{"text", "abc"}, {"hex", "0x10"}, {"huge", "1e999"}, {"nan", "NaN"}, {"minus", "-9223372036854775809"}, {"spaces", "  7  "}} {
@@ -235,22 +234,22 @@ func c09Shapes(table *Table) []c09Shape {
 		)
 	}
 	for _, trig := range []string{"all", "check", "state", "log", "downtime", "comment", "command", "program", "nosuchtrigger"} {
-		shapes = append(shapes, c09Shape{Name: "waittrigger_" + trig, Wait: true, Lines: []string{col, "WaitTrigger: " + trig, "WaitTimeout: 1"}})
+		shapes = append(shapes, c09Shape{Name: "waittrigger_" + trig, Wait: true, Lines: []string{col, "WaitTrigger: " + trig, "WaitTimeout: 100"}})
 	}
 	objects := [][2]string{{"missing", "foo"}, {"missing_semicolon", "foo;bar"}, {"only_semicolon", ";"}, {"existing", existing}, {"existing_host_only", "alpha"}}
 	for _, obj := range objects {
 		shapes = append(shapes,
-			c09Shape{Name: "waitobject_" + obj[0], Wait: true, Lines: []string{col, "WaitTrigger: all", "WaitObject: " + obj[1], "WaitTimeout: 1"}},
-			c09Shape{Name: "waitobject_" + obj[0] + "_cond", Wait: true, Lines: []string{col, "WaitTrigger: all", "WaitObject: " + obj[1], "WaitCondition: " + key + " !=", "WaitTimeout: 1"}},
-			c09Shape{Name: "waitobject_" + obj[0] + "_cond_negate", Wait: true, Lines: []string{col, "WaitTrigger: all", "WaitObject: " + obj[1], "WaitCondition: " + key + " !=", "WaitConditionNegate:", "WaitTimeout: 1"}},
+			c09Shape{Name: "waitobject_" + obj[0], Wait: true, Lines: []string{col, "WaitTrigger: all", "WaitObject: " + obj[1], "WaitTimeout: 100"}},
+			c09Shape{Name: "waitobject_" + obj[0] + "_cond", Wait: true, Lines: []string{col, "WaitTrigger: all", "WaitObject: " + obj[1], "WaitCondition: " + key + " !=", "WaitTimeout: 100"}},
+			c09Shape{Name: "waitobject_" + obj[0] + "_cond_negate", Wait: true, Lines: []string{col, "WaitTrigger: all", "WaitObject: " + obj[1], "WaitCondition: " + key + " !=", "WaitConditionNegate:", "WaitTimeout: 100"}},
 		)
 	}
 	shapes = append(shapes, c09Shape{Name: "waitobject_without_trigger", Lines: []string{col, "WaitObject: foo", "WaitTimeout: 1"}})
 	// a condition that is not met makes Peer.waitcondition refresh the table from the backend 200 ms later
 	shapes = append(shapes,
-		c09Shape{Name: "waitcondition_unmet", Wait: true, Slow: true, Lines: []string{col, "WaitTrigger: all", "WaitCondition: " + key + " = verif-no-such-value", "WaitTimeout: 1"}},
-		c09Shape{Name: "waitcondition_unmet_object", Wait: true, Slow: true, Lines: []string{col, "WaitTrigger: all", "WaitObject: " + existing, "WaitCondition: " + key + " = verif-no-such-value", "WaitTimeout: 1"}},
-		c09Shape{Name: "waitcondition_met_negate", Wait: true, Slow: true, Lines: []string{col, "WaitTrigger: all", "WaitCondition: " + key + " !=", "WaitConditionNegate:", "WaitTimeout: 1"}},
+		c09Shape{Name: "waitcondition_unmet", Wait: true, Lines: []string{col, "WaitTrigger: all", "WaitCondition: " + key + " = verif-no-such-value", "WaitTimeout: 100"}},
+		c09Shape{Name: "waitcondition_unmet_object", Wait: true, Lines: []string{col, "WaitTrigger: all", "WaitObject: " + existing, "WaitCondition: " + key + " = verif-no-such-value", "WaitTimeout: 100"}},
+		c09Shape{Name: "waitcondition_met_negate", Wait: true, Lines: []string{col, "WaitTrigger: all", "WaitCondition: " + key + " !=", "WaitConditionNegate:", "WaitTimeout: 100"}},
 	)
 
 	return shapes
@@ -265,8 +264,7 @@ type c09Probe struct {
 	Text  string
 	Wait  bool // per column WaitCondition: evaluated directly
 	Shape bool
-	Sett  bool // shape through Peer.WaitCondition: settle afterwards
-	Slow  bool // settle for more than the polling interval of Peer.waitcondition
+	Sett  bool // shape through Peer.WaitCondition: own daemon, settle afterwards
 }
 
 // c09Tables are the tables of the matrix (aliases once, as in Gen/Schema.v; the pass-through
@@ -305,14 +303,14 @@ func c09Probes() []*c09Probe {
 		}
 	}
 	// request level shapes behind the columns, those that leave a polling goroutine behind at the very end
-	for pass := 0; pass < 3; pass++ {
+	for pass := 0; pass < 2; pass++ {
 		for _, table := range c09Tables() {
 			tname := table.name.String()
 			for _, sh := range c09Shapes(table) {
-				if (pass == 0) != !sh.Wait || (pass == 2) != sh.Slow {
+				if (pass == 1) != sh.Wait {
 					continue
 				}
-				probes = append(probes, &c09Probe{Table: tname, Usage: "(UShape " + coqStr(sh.Name) + ")", Shape: true, Sett: sh.Wait, Slow: sh.Slow,
+				probes = append(probes, &c09Probe{Table: tname, Usage: "(UShape " + coqStr(sh.Name) + ")", Shape: true, Sett: sh.Wait,
 					Text: c09RequestText(tname, sh.Lines)})
 			}
 		}
@@ -374,6 +372,19 @@ func c09Dataset() *qeDataset {
 
 		return false
 	}))
+	// a backend may send fewer custom variable values than names: host alpha / its service ping carry variable FOO
+	// (the one the probes ask for) without a value
+	for _, tn := range []string{"hosts", "services"} {
+		tab := ds.Backends[0].table(tn)
+		for _, row := range tab.Rows {
+			if row[0] == "alpha" {
+				row[tab.col("custom_variable_names")] = []string{"BAR", "FOO"}
+				row[tab.col("custom_variable_values")] = []string{"x"}
+
+				break
+			}
+		}
+	}
 	ds.Backends = append(ds.Backends, pick(2, func(bk *qeBackend) bool { return len(bk.Flags) == 0 }))
 	// backend 3 claims every optional feature: each optional column is read from its slot on this one
 	// (and through the missing-column path on backend 2)
@@ -390,9 +401,23 @@ func c09Dataset() *qeDataset {
 	return ds
 }
 
-func c09Load() *Daemon {
+var c09LoadMu sync.Mutex
+
+func c09Load() *Daemon { return c09LoadLane(-1) }
+
+// c09LoadLane: lane >= 0 names the backends c09lane<lane>-<i>, so that a panic logged by logPanicExitPeer
+// (which prefixes the peer's name) is attributed to the probe running in that lane.
+func c09LoadLane(lane int) *Daemon {
+	c09LoadMu.Lock()
+	defer c09LoadMu.Unlock()
 	dir := filepath.Join(verifEnv("VERIF_SOCKDIR", "/verif/work/sock"), fmt.Sprintf("c09gen-%d-%d", os.Getpid(), qeLoadCounter.Add(1)))
-	lmd, err := qeLoad(c09Dataset(), dir)
+	ds := c09Dataset()
+	if lane >= 0 {
+		for i, bk := range ds.Backends {
+			bk.Name = fmt.Sprintf("c09lane%d-%d", lane, i+1)
+		}
+	}
+	lmd, err := qeLoad(ds, dir)
 	if err != nil {
 		panic("c09: cannot load the probe dataset: " + err.Error())
 	}
@@ -406,18 +431,27 @@ func c09Load() *Daemon {
 type c09Capture struct {
 	mu    sync.Mutex
 	panic string
+	lanes map[int]string // panics of daemons whose peers are named c09lane<N>-...
 }
 
 var (
-	c09Cap        = &c09Capture{}
+	c09Cap        = &c09Capture{lanes: map[int]string{}}
 	c09RePanicLog = regexp.MustCompile(`Panic:\s*(.*)`)
+	c09ReLane     = regexp.MustCompile(`\[c09lane(\d+)-`)
 	c09ReAddr     = regexp.MustCompile(`0x[0-9a-fA-F]+|\(\*[^)]*\)\(nil\)`)
 )
 
 func (c *c09Capture) Write(buf []byte) (int, error) {
 	if m := c09RePanicLog.FindSubmatch(buf); m != nil {
 		c.mu.Lock()
-		if c.panic == "" {
+		if lm := c09ReLane.FindSubmatch(buf); lm != nil {
+			// logPanicExitPeer prefixes its lines with the peer's name: the daemon of a lane
+			lane := 0
+			fmt.Sscanf(string(lm[1]), "%d", &lane)
+			if c.lanes[lane] == "" {
+				c.lanes[lane] = string(m[1])
+			}
+		} else if c.panic == "" {
 			c.panic = string(m[1])
 		}
 		c.mu.Unlock()
@@ -433,6 +467,15 @@ func (c *c09Capture) take() string {
 	defer c.mu.Unlock()
 	txt := c.panic
 	c.panic = ""
+
+	return txt
+}
+
+func (c *c09Capture) takeLane(lane int) string {
+	c.mu.Lock()
+	defer c.mu.Unlock()
+	txt := c.lanes[lane]
+	delete(c.lanes, lane)
 
 	return txt
 }
@@ -477,7 +520,8 @@ const c09ProbeDeadline = 5 * time.Second
 var c09IdleGoroutines = 1
 
 // c09Observe runs one request text against the daemon like a client connection would.
-func c09Observe(lmd *Daemon, probe *c09Probe) c09Outcome {
+// lane >= 0: the daemon was loaded for that lane (c09LoadLane), other lanes run at the same time.
+func c09Observe(lmd *Daemon, probe *c09Probe, lane int) c09Outcome {
 	done := make(chan c09Outcome, 1)
 	go func() {
 		out := c09Outcome{Kind: "ok"}
@@ -547,18 +591,22 @@ func c09Observe(lmd *Daemon, probe *c09Probe) c09Outcome {
 	case <-time.After(c09ProbeDeadline):
 		out = c09Outcome{Kind: "hang", Site: "no answer within the probe deadline"}
 	}
-	if probe.Sett {
-		// Peer.WaitCondition evaluates in a goroutine of its own that may outlive the request
-		time.Sleep(4 * time.Millisecond)
-		if probe.Slow {
-			time.Sleep(WaitTimeoutCheckInterval + 60*time.Millisecond)
+	if lane >= 0 {
+		// Peer.WaitCondition evaluates in a goroutine of its own that outlives the request: it polls every
+		// 200 ms and may refresh the table from the backend then
+		time.Sleep(WaitTimeoutCheckInterval + 250*time.Millisecond)
+		if txt := c09Cap.takeLane(lane); txt != "" && out.Kind != "hang" {
+			out = c09Outcome{Kind: "panic", Site: c09Site(txt)}
 		}
-	} else if out.Kind != "hang" {
+
+		return out
+	}
+	if out.Kind != "hang" {
 		// a panicking per-peer goroutine signals its WaitGroup before its handler logs: wait until all
 		// goroutines of this probe are gone, so that a panic is never attributed to the next probe
 		// (runtime.NumGoroutine is only approximate while goroutines start or end: several readings in a row)
 		calm := 0
-		for spin := 0; calm < 6 && spin < 4000; spin++ {
+		for spin := 0; calm < 6 && spin < 1500; spin++ {
 			if runtime.NumGoroutine() > c09IdleGoroutines {
 				calm = 0
 				time.Sleep(25 * time.Microsecond)
@@ -566,6 +614,15 @@ func c09Observe(lmd *Daemon, probe *c09Probe) c09Outcome {
 				calm++
 				runtime.Gosched()
 			}
+		}
+		if calm < 6 {
+			// a goroutine of this probe stays behind (blocked for good): it is part of the idle level from now on,
+			// the following probes must not wait for it again
+			if os.Getenv("VERIF_C09_DEBUG") != "" {
+				buf := make([]byte, 1<<16)
+				fmt.Fprintf(os.Stderr, "c09probe: goroutines left behind by %s %s %s\n%s\n", probe.Table, probe.Col, probe.Usage, buf[:runtime.Stack(buf, true)])
+			}
+			c09IdleGoroutines = runtime.NumGoroutine()
 		}
 	}
 	if txt := c09Cap.take(); txt != "" && out.Kind != "hang" {
@@ -620,55 +677,113 @@ func c09ProbeMain(args []string) int {
 
 		return true
 	}
+	var outMu sync.Mutex
+	emit := func(format string, a ...interface{}) {
+		outMu.Lock()
+		fmt.Fprintf(out, format, a...)
+		out.Flush()
+		outMu.Unlock()
+	}
+	skip := map[int]bool{}
+	for _, f := range strings.Split(os.Getenv("VERIF_C09_SKIP"), ",") {
+		idx := -1
+		if n, _ := fmt.Sscanf(f, "%d", &idx); n == 1 {
+			skip[idx] = true
+		}
+	}
+	settled := []int{}
+	lastSeq := -1
 	for i := from; i < to; i++ {
 		probe := probes[i]
-		// requests that go through Peer.WaitCondition try to refresh from the (non-existing) backend: fresh daemon
-		if lmd == nil || probe.Sett {
+		if skip[i] {
+			continue
+		}
+		if probe.Sett {
+			settled = append(settled, i)
+
+			continue
+		}
+		if lmd == nil {
 			lmd = c09Load()
 			fresh = 0
-			if !probe.Sett {
-				time.Sleep(time.Millisecond)
-				c09IdleGoroutines = runtime.NumGoroutine()
-			}
+			time.Sleep(time.Millisecond)
+			c09IdleGoroutines = runtime.NumGoroutine()
 		}
 		fresh++
 		if txt := c09Cap.take(); txt != "" && i > from {
 			// logged after the previous probe had been observed: it belongs to that one
 			buf, _ := json.Marshal(c09Outcome{Kind: "panic", Site: c09Site(txt)})
-			fmt.Fprintf(out, "C %d %s\n", i-1, buf)
+			emit("C %d %s\n", i-1, buf)
 		}
-		fmt.Fprintf(out, "B %d\n", i)
-		out.Flush()
+		emit("B %d\n", i)
 		if hangs >= 3 {
 			// every further probe would cost the deadline again
 			buf, _ := json.Marshal(c09Outcome{Kind: "hang", Site: "not run: earlier probes of this process got no answer"})
-			fmt.Fprintf(out, "R %d %s\n", i, buf)
+			emit("R %d %s\n", i, buf)
 
 			continue
 		}
-		res := c09Observe(lmd, probe)
+		res := c09Observe(lmd, probe, -1)
+		lastSeq = i
 		if res.Kind == "hang" {
 			hangs++
 		}
 		switch {
-		case res.Kind == "hang" || probe.Sett:
+		case res.Kind == "hang":
 			lmd = nil
-		case fresh >= 2000 || i == to-1:
+		case fresh >= 2000 || i == to-1 || probes[i+1].Sett || skip[i+1]:
 			if !checkCanary(i) {
 				return 3
 			}
 			lmd = nil
 		}
 		buf, _ := json.Marshal(res)
-		fmt.Fprintf(out, "R %d %s\n", i, buf)
+		emit("R %d %s\n", i, buf)
 	}
-	// stragglers of Peer.WaitCondition goroutines (they poll every 200 ms)
-	time.Sleep(450 * time.Millisecond)
+	if txt := c09Cap.take(); txt != "" && lastSeq >= 0 {
+		buf, _ := json.Marshal(c09Outcome{Kind: "panic", Site: c09Site(txt)})
+		emit("C %d %s\n", lastSeq, buf)
+	}
+	// requests that go through Peer.WaitCondition: each on a daemon of its own (the lingering goroutine tries to
+	// refresh from the non-existing backend), many at the same time, 450 ms of settling each
+	var laneWg sync.WaitGroup
+	next := make(chan int, len(settled))
+	for _, i := range settled {
+		next <- i
+	}
+	close(next)
+	for lane := 0; lane < 24 && lane < len(settled); lane++ {
+		laneWg.Add(1)
+		go func(lane int) {
+			defer laneWg.Done()
+			prev := -1
+			late := func() {
+				// logged after the lane's previous probe had been observed (an overloaded machine): it belongs to that one
+				if txt := c09Cap.takeLane(lane); txt != "" && prev >= 0 {
+					buf, _ := json.Marshal(c09Outcome{Kind: "panic", Site: c09Site(txt)})
+					emit("C %d %s\n", prev, buf)
+				}
+			}
+			for i := range next {
+				late()
+				emit("B %d\n", i)
+				res := c09Observe(c09LoadLane(lane), probes[i], lane)
+				buf, _ := json.Marshal(res)
+				emit("R %d %s\n", i, buf)
+				prev = i
+			}
+			time.Sleep(150 * time.Millisecond)
+			late()
+		}(lane)
+	}
+	laneWg.Wait()
+	// stragglers that could not be attributed
+	time.Sleep(50 * time.Millisecond)
 	if txt := c09Cap.take(); txt != "" {
 		buf, _ := json.Marshal(c09Outcome{Kind: "panic", Site: c09Site(txt)})
-		fmt.Fprintf(out, "L %s\n", buf)
+		emit("L %s\n", buf)
 	}
-	fmt.Fprintf(out, "END\n")
+	emit("END\n")
 
 	return 0
 }
@@ -683,13 +798,10 @@ func c09RunProbesInChildren(probes []*c09Probe) (results []c09Outcome, late []c0
 	if workers < 1 {
 		workers = 1
 	}
-	// contiguous chunks of about equal cost (a probe with a fresh daemon costs about 60 plain ones)
+	// contiguous chunks of about equal cost (a probe with a daemon of its own and 280 ms of settling, 24 at a time, costs about 30 plain ones)
 	cost := func(p *c09Probe) int {
-		if p.Slow {
-			return 700
-		}
 		if p.Sett {
-			return 60
+			return 30
 		}
 
 		return 1
@@ -720,17 +832,33 @@ func c09RunProbesInChildren(probes []*c09Probe) (results []c09Outcome, late []c0
 		go func(from, to int) {
 			defer wg.Done()
 			restarts := 0
-			for from < to {
-				cmd := exec.Command(os.Args[0], "c09probe", fmt.Sprintf("%d", from), fmt.Sprintf("%d", to))
+			done := map[int]bool{}
+			for {
+				// the probes of the range that still have no result
+				first, skip := -1, []string{}
+				for i := from; i < to; i++ {
+					switch {
+					case !done[i] && first < 0:
+						first = i
+					case done[i] && first >= 0:
+						skip = append(skip, fmt.Sprintf("%d", i))
+					}
+				}
+				if first < 0 {
+					return
+				}
+				cmd := exec.Command(os.Args[0], "c09probe", fmt.Sprintf("%d", first), fmt.Sprintf("%d", to))
 				var stdout, stderr bytes.Buffer
 				cmd.Stdout, cmd.Stderr = &stdout, &stderr
-				cmd.Env = append(os.Environ(), "VERIF_LOGLEVEL=off")
+				cmd.Env = append(os.Environ(), "VERIF_LOGLEVEL=off", "VERIF_C09_SKIP="+strings.Join(skip, ","))
 				err := cmd.Run()
-				begun, ended := -1, false
+				inflight, ended := map[int]bool{}, false
 				for _, line := range strings.Split(stdout.String(), "\n") {
 					switch {
 					case strings.HasPrefix(line, "B "):
-						fmt.Sscanf(line, "B %d", &begun)
+						idx := -1
+						fmt.Sscanf(line, "B %d", &idx)
+						inflight[idx] = true
 					case strings.HasPrefix(line, "R "):
 						parts := strings.SplitN(line, " ", 3)
 						idx := -1
@@ -740,10 +868,8 @@ func c09RunProbesInChildren(probes []*c09Probe) (results []c09Outcome, late []c0
 							mu.Lock()
 							results[idx] = res
 							mu.Unlock()
-							if idx == begun {
-								begun = -1
-							}
-							from = idx + 1
+							delete(inflight, idx)
+							done[idx] = true
 						}
 					case strings.HasPrefix(line, "C "):
 						parts := strings.SplitN(line, " ", 3)
@@ -775,18 +901,23 @@ func c09RunProbesInChildren(probes []*c09Probe) (results []c09Outcome, late []c0
 				if cmd.ProcessState != nil {
 					code = cmd.ProcessState.ExitCode()
 				}
-				if begun < 0 || code == 3 || restarts > 400 {
+				if len(inflight) == 0 || code == 3 || restarts > 400 {
 					mu.Lock()
 					fail = fmt.Sprintf("c09probe child failed (exit %d) outside a probe: %s", code, c09Tail(stderr.String()))
 					mu.Unlock()
 
 					return
 				}
-				// the process died during probe `begun`: that is the probe's outcome
+				// the process died during the probes in flight (one, except for the WaitCondition shapes which
+				// run several at a time): that is their outcome
 				mu.Lock()
-				results[begun] = c09Outcome{Kind: "panic", Site: c09Site(fmt.Sprintf("process exit %d: %s", code, c09DeathLine(stderr.String())))}
+				for idx := range inflight {
+					if idx >= from && idx < to {
+						results[idx] = c09Outcome{Kind: "panic", Site: c09Site(fmt.Sprintf("process exit %d: %s", code, c09DeathLine(stderr.String())))}
+						done[idx] = true
+					}
+				}
 				mu.Unlock()
-				from = begun + 1
 				restarts++
 			}
 		}(from, to)
